@@ -131,8 +131,10 @@ def control(ctx: "Ctx", mod, name: str, make_variant, expect_rule: str, expect_w
         if expect_rule == "ANALYSIS-ERROR":
             ctx.ok(ctx.prop + ".control", "control:" + name, "seeded defect rejected as analysis error: %s" % e, trivial=True)
             return
-        ctx.control_errors.append("positive control '%s' made the analysis fail instead of reporting: %s" % (name, e))
-        return
+        # as in run(): a finding recorded before the analysis gave up still counts
+        if not any(f.rule.startswith(expect_rule) for f in sub.findings):
+            ctx.control_errors.append("positive control '%s' made the analysis fail instead of reporting: %s" % (name, e))
+            return
     hits = [f for f in sub.findings if f.rule.startswith(expect_rule) and (expect_where is None or expect_where in f.where)]
     if not hits:
         ctx.control_errors.append("positive control '%s' was not reported by rule %s (reported: %s)" % (
